@@ -950,7 +950,8 @@ def eval_flag(ctx: Ctx, spec, cfg, rng=None, with_model=True):
                     exp = "skip" if has_mixin(cls) else None
                 elif type(obj) is int and 0 <= obj <= mask:
                     try:
-                        exp = cls(obj)._value_
+                        r = cls(obj)
+                        exp = r._value_ if isinstance(r, cls) else None   # boundary=EJECT hands back an int
                     except ValueError:
                         exp = None
                 else:
